@@ -328,7 +328,7 @@ func c03Issue(rt *rapid.T, r *c03Request) (Certificate, error, string) {
 }
 
 func TestC03_SignRoundTrip(t *testing.T) {
-	vk.Check(t, 15000, func(rt *rapid.T) {
+	vk.Check(t, 40000, func(rt *rapid.T) {
 		r := c03DrawRequest(rt)
 		s := &r.spec
 		c, err, mode := c03Issue(rt, r)
@@ -690,7 +690,7 @@ func c03MutateBytes(rt *rapid.T, b []byte) []byte {
 const c03EmptySigKey = "v1-decoder-accepts-empty-signature"
 
 func TestC03_DecodeArbitrary(t *testing.T) {
-	vk.Check(t, 40000, func(rt *rapid.T) {
+	vk.Check(t, 100000, func(rt *rapid.T) {
 		var data []byte
 		kind := rapid.SampledFrom([]string{"random", "hostile-v1", "hostile-v1", "hostile-v2", "hostile-v2", "mutant", "mutant"}).Draw(rt, "kind")
 		sel := rapid.IntRange(0, 7).Draw(rt, "decoder")
